@@ -82,6 +82,8 @@ class EngineBase:
         if extra is not None:
             e = _fold(extra)
             if z3.is_true(e):
+                if self.spec_mode and not self._exact:
+                    return True
                 return True if not pc else self.feasible(pc)
             if z3.is_false(e):
                 return False
